@@ -69,6 +69,11 @@ MUTANTS = [
      "    def __repr__(self):\n        r = \"Region with",
      "    def __getstate__(self):\n        return {'maxdepth': self.maxdepth}"
      "\n\n    def __repr__(self):\n        r = \"Region with", "C12-R5"),
+    ("vertex coordinates swapped", "AegeanTools/regions.py",
+     "                        ra, dec = sky", "                        dec, ra = sky", "C12-R4"),
+    ("vertex RA printed in degrees", "AegeanTools/regions.py",
+     "pos = SkyCoord(ra/15, dec, unit=(u.degree, u.degree))",
+     "pos = SkyCoord(ra, dec, unit=(u.degree, u.degree))", "C12-R4"),
 ]
 TWINS = [
     ("save drops the cache by re-binding", "AegeanTools/regions.py",
@@ -257,6 +262,14 @@ def run(ctx):
                   "stored pixel (found %d in the pixel loop, %d in nested "
                   "loops)" % (len(prints), len(deeper)), node=ploop)
 
+    # vertices: (longitude, latitude) order and RA in hours at SkyCoord
+    from .. import unitrules
+    unitrules.apply(ctx, "C12-R4",
+                    lambda sh: sh == "regions.Region.write_reg" or (
+                        sh.startswith("regions.Region._") and
+                        not sh.startswith("regions.Region.__")),
+                    kinds={"call"}, report_rules=set(),
+                    what="contract sites of the DS9 writer", floor=1)
     # ---------------------------------------------------------------- R5
     ctx.rule("C12-R5", ".mim round trip: Region defines no pickling hook; "
              "save dumps self and load returns what the same pickle module "
